@@ -233,6 +233,15 @@ def r5_initialize(ctx, res):
          'the total of every part of speech starts at the smoothing value'),
         (('return', 'F', ()), 'the table is returned'),
     ]
+    # the per-part-of-speech table may equally be filled by an explicit inner loop
+    inner = [e for e in E if e.kind == 'new' and e.ctx in (('for sorted(IC_PARTS_OF_SPEECH)',), ('for IC_PARTS_OF_SPEECH',)) and e.text.endswith('<{}>')]
+    if inner:
+        ic = inner[0].text
+        fill = {(e.kind, e.text.replace(ic, 'I'), e.ctx) for e in E if e.kind == 'store'}
+        link = {(e.kind, e.text.replace(cell, 'F').replace(ic, 'I'), e.ctx) for e in E if e.kind == 'store'}
+        for pos_loop in ('for sorted(IC_PARTS_OF_SPEECH)', 'for IC_PARTS_OF_SPEECH'):
+            if ('store', 'I[$2.id] = smoothing', (pos_loop, 'for wordnet.synsets(pos=$1)')) in fill and ('store', 'F[$1] = I', (pos_loop,)) in link:
+                got.add(('store', 'F[$1] = {_1.id: smoothing for _1 in wordnet.synsets(pos=$1)}', ('for sorted(IC_PARTS_OF_SPEECH)',)))
     for spec, why in need:
         alt = (spec[0], spec[1], tuple(c.replace('sorted(IC_PARTS_OF_SPEECH)', 'IC_PARTS_OF_SPEECH') for c in spec[2]))
         if spec not in got and alt not in got:
